@@ -68,6 +68,7 @@ PROPS = {
     "C20": {
         "lanes": [
             {"lane": "pack", "quick": 2500, "thorough": 60000},
+            {"lane": "pack-spelling", "quick": 40, "thorough": 1000},   # Packer reuse after a failed Pack
         ],
         "trusted_base": [STDLIB, FSMODEL],
         "assumptions": [],
